@@ -358,7 +358,13 @@ fn check(case: &Case, obs: &mut Obs) -> Verdict {
             // a narrow id type is wide enough whenever the number of DISTINCT items fits, however long
             // the sequences are: the same items behind 300 copies of the first old item, ids in u8
             let r = match r {
-                Ok(Ok(())) if distinct <= 200 && !c.old.is_empty() => guard(|| {
+                Ok(Ok(())) if !c.old.is_empty() && {
+                    // distinct items of the WHOLE sequences (the lengthened ranges reach back to index or.0 / nr.0 of them)
+                    let mut all: Vec<u32> = c.old.iter().chain(c.new.iter()).cloned().collect();
+                    all.sort();
+                    all.dedup();
+                    all.len() <= 200
+                } => guard(|| {
                     let mut long_old = vec![c.old[0]; 300];
                     long_old.extend_from_slice(&c.old);
                     let mut long_new = vec![c.old[0]; 280];
